@@ -57,21 +57,35 @@ Definition parse_divider (line : list N) : dsearch :=
     end
   end.
 
+(* parse_salted_divider_bytes: only a divider that carries the salt of this execution is one -- a line with the prefix and
+   another salt is output like any other line *)
+Definition parse_salted (salt line : list N) : dsearch :=
+  let line := trim_nl line in
+  match find_sub (PREFIX ++ salt ++ COLONS) line with
+  | None => NotFound
+  | Some i =>
+    match parse_divider (skipn i line) with
+    | Found _ n c => Found (firstn i line) n c
+    | NotFound => NotFound
+    | Bad => Bad
+    end
+  end.
+
 (* iterate_divided_output: lines without divider are buffered; a divider line closes the output of test case `expected` *)
-Fixpoint iterate (lines : list (list N)) (buffer : list N) (expected : N) : option (list (list N * Z)) :=
+Fixpoint iterate (salt : list N) (lines : list (list N)) (buffer : list N) (expected : N) : option (list (list N * Z)) :=
   match lines with
   | [] => Some []                                                   (* what is left in the buffer is dropped *)
   | l :: r =>
-    match parse_divider l with
+    match parse_salted salt l with
     | Bad => None
-    | NotFound => iterate r (buffer ++ l) expected
+    | NotFound => iterate salt r (buffer ++ l) expected
     | Found prefix idx code =>
       if idx =? expected then
-        match iterate r [] (expected + 1) with Some rest => Some ((buffer ++ prefix, code) :: rest) | None => None end
+        match iterate salt r [] (expected + 1) with Some rest => Some ((buffer ++ prefix, code) :: rest) | None => None end
       else None
     end
   end.
-Definition split_outputs (stream : list N) : option (list (list N * Z)) := iterate (split_lines stream) [] 0.
+Definition split_outputs (salt stream : list N) : option (list (list N * Z)) := iterate salt (split_lines stream) [] 0.
 
 (* what bash prints on stdout for the compiled script: every payload followed by `echo "<divider>"`, wherever the
    payload ended (so a payload without final newline shares its last line with the divider) *)
